@@ -354,6 +354,26 @@ def child(job):
                         pt.append("Optional[unresolvable] did not pass the value through")
             except Exception as e:  # noqa: BLE001
                 pt.append(f"pass-through probe raised {type(e).__name__}: {e}"[:160])
+        # the routines built are those of the annotation ASKED for (not those of one of its members): empty container / None at the root
+        try:
+            if src.startswith(("list[", "typing.List[")):
+                got = (u([]), m([]))
+                if got != ([], []):
+                    pt.append(f"routines for {src} do not map the empty list to the empty list: {got!r}"[:200])
+            elif src.startswith(("dict[", "typing.Dict[")):
+                got = (u({}), m({}))
+                if got != ({}, {}):
+                    pt.append(f"routines for {src} do not map the empty dict to the empty dict: {got!r}"[:200])
+            elif src.startswith("tuple[") and src.endswith(", ...]"):
+                got = (u(()), m(()))
+                if got != ((), []):
+                    pt.append(f"routines for {src} do not map the empty tuple to the empty tuple / list: {got!r}"[:200])
+            elif src.startswith("typing.Optional["):
+                got = (u(None), m(None))
+                if got != (None, None):
+                    pt.append(f"routines for {src} do not map None to None: {got!r}"[:200])
+        except Exception as e:  # noqa: BLE001
+            pt.append(f"routines for {src} raised on the empty container / None at the root: {type(e).__name__}: {e}"[:200])
         o["passthrough"] = pt
         # repeatable: again, and after clearing every cache
         try:
